@@ -158,6 +158,7 @@ type VerifChunkView struct {
 // VerifNodeView is a read-only view of a node.
 type VerifNodeView struct {
 	Fqname    string
+	Callable  string // name of the stage or pipeline being called
 	Kind      string
 	State     MetadataState // cached state used by the scheduler
 	LiveState MetadataState // getState() now
@@ -175,6 +176,7 @@ func (self *Pipestance) VerifNodes() []VerifNodeView {
 	for _, n := range nodes {
 		v := VerifNodeView{
 			Fqname:    n.call.GetFqid(),
+			Callable:  n.call.Callable().GetId(),
 			Kind:      "pipeline",
 			State:     n.state,
 			LiveState: n.getState(),
